@@ -316,8 +316,8 @@ Proof.
   destruct (nth_error (thrs s) i) as [p|] eqn:H; [|discriminate].
   assert (HT : T s i = Some p) by exact H.
   set (K := length (thrs s)).
-  destruct p as [prog| | | | | |l k r|l r|l r|r|q r| |l q f a|l q a|a].
-  - destruct prog as [|[l k b| |] r].
+  destruct p as [prog| | | | | |l k r|l r|l r|r|q r|wl r| |l q f a|l q a|a].
+  - destruct prog as [|[l k b| | |wl] r].
     + cbn [fst]. apply (mu_move s i _ (CAt []) HT); [apply next_client_client|].
       rewrite pcw_next_client. cbn [ncw pcw progw endw]. unfold endw. destruct (Nat.eqb i 0); lia.
     + pose proof (mu_enqueue s i l k b (next_client i r) _ I HT) as E.
@@ -338,6 +338,8 @@ Proof.
         -- unfold ncw, endw. destruct (Nat.eqb i 0); lia.
       * intros X. discriminate.
       * intros _. exact LT.
+    + cbn [fst]. apply (mu_move s i _ (CAt (OWait wl :: r)) HT); [apply next_client_client|].
+      rewrite pcw_next_client. pose proof (ncw_le K i r). cbn [pcw progw opw]. fold K. lia.
   - cbn [fst]. apply (mu_move s i CDtor CXWait HT); [reflexivity|]. cbn [pcw]. lia.
   - pose proof (mu_stop_mark s i ADtor _ B HT) as E.
     destruct (stop_mark s i ADtor) as [s1 e]. cbn [fst] in *. apply E; [reflexivity| |intros; discriminate].
@@ -372,6 +374,8 @@ Proof.
     destruct (stop_mark s i (AWorker false r)) as [s1 e]. cbn [fst] in *. apply E; [reflexivity| |intros d r0 X; inversion X; reflexivity].
     cbn [aw pcw]. lia.
   - cbn [fst]. apply (mu_move s i _ (WQry q r) HT); [apply job_next_plain|].
+    rewrite pcw_job_next. cbn [pcw]. lia.
+  - cbn [fst]. apply (mu_move s i _ (WWait wl r) HT); [apply job_next_plain|].
     rewrite pcw_job_next. cbn [pcw]. lia.
   - discriminate.
   - assert (END : mu (fst (after_wait s i [] q f a)) < mu s).
@@ -459,7 +463,7 @@ Proof.
 Qed.
 
 (* C11.8 the run of every case file ends with every thread finished (or in the client-program deadlock) *)
-Theorem run_ends ops : terminal (final_state ops) \/ user_stuck (final_state ops).
+Theorem run_ends ops : terminal (final_state ops) \/ user_stuck (final_state ops) \/ waits_for_submission (final_state ops).
 Proof.
   pose proof (final_reachable ops) as R.
   assert (NE : forall i, enabled (final_state ops) i = false).
@@ -475,7 +479,7 @@ Qed.
 (* what the oracle looks at, on the model's own final state: unless the client program deadlocked itself, the run
    ends with the pool destroyed, nothing stuck, no use after destruction, and every closure ever handed to the pool
    run exactly once on a worker or cancelled exactly once (never both), its waiter having seen exactly that *)
-Theorem model_final_ok ops : ~ user_stuck (final_state ops) ->
+Theorem model_final_ok ops : ~ user_stuck (final_state ops) -> ~ waits_for_submission (final_state ops) ->
   let s := final_state ops in
   destroyed s = true /\ uad s = false /\ stuck_list (thrs s) 0 = [] /\
   forall c x, nth_error (clos s) c = Some x ->
@@ -483,8 +487,8 @@ Theorem model_final_ok ops : ~ user_stuck (final_state ops) ->
     wstate x = (if Nat.eqb (cran x) 1 then 1 else 2)%Z /\
     (cran x = 1 -> cran_on x < length (thrs s) /\ (nclients s <= cran_on x \/ In (cran_on x) (extw s))).
 Proof.
-  intros NU s. pose proof (final_reachable ops) as R. fold s in R.
-  destruct (run_ends ops) as [Tm|US]; [|contradiction]. fold s in Tm.
+  intros NU NW s. pose proof (final_reachable ops) as R. fold s in R.
+  destruct (run_ends ops) as [Tm|[US|WS]]; [|contradiction|contradiction]. fold s in Tm.
   destruct (terminal_quiet ops s R Tm) as (D & _ & _).
   split; [exact D|]. split; [apply (no_use_after_destroy ops s R)|]. split.
   - assert (GEN : forall l k, (forall p, In p l -> p = CDone \/ p = WExit) -> stuck_list l k = []).
